@@ -178,6 +178,16 @@ CLAIMS = {
         "precession and back (witness norms verified).",
    technique="TLA+ linear/rotation relations over verified witnesses; IAU polynomial in the spec; trace validation",
    ref="5/C08"),
+ "C09": dict(
+   text="Trace_Geocentric.tla relates every returned geocentric direction to the library's own heliocentric vectors: for planets "
+        "and Pluto the direction must point along P(t - tau) - E(t) with the light-time fixed point verified in the spec; for "
+        "minor bodies the heliocentric point implied by the returned direction must lie in the orbital plane, on the conic and "
+        "at the place Kepler's (ellipse) or Barker's (parabola) equation assigns to t - tau - T; elongation against the apparent "
+        "Sun, ranges, and the caller's Epoch left unshifted. All relations are polynomial identities over verified witnesses.",
+   note="Trusted: TLC, Fix.tla, math.sin/cos/sqrt/atan2 for the witnesses and the ~20-line construction of the orbit frame "
+        "(normal, perihelion direction) from i, node, argument of perihelion.",
+   technique="TLA+ vector identities over verified witnesses; trace validation",
+   ref="5/C09"),
 }
 
 PENDING_REASON = "check not built yet in this round (specification module planned in DESIGN.md section 5); not claimed until its trace specification validates the unchanged tree"
